@@ -19,15 +19,16 @@ FAST = [False]         # canary runs: short solver budget (a mutant left undecid
 
 
 class Harness:
-    def __init__(self, name, fn, props, layer, functions, doc):
+    def __init__(self, name, fn, props, layer, functions, doc, also=()):
         self.name, self.fn, self.props, self.layer, self.functions, self.doc = name, fn, props, layer, functions, doc
+        self.also = list(also)      # properties for which this harness also runs; only explicitly tagged obligations count
         self.canaries = []          # (label, owner-getter, funcname, old, new, expected-clause-substring)
         self.conc = True            # harness text supports concrete mode (replay / bounded fallback)
 
 
-def harness(name, props, layer='L0', functions=()):
+def harness(name, props, layer='L0', functions=(), also=()):
     def deco(fn):
-        h = Harness(name, fn, list(props), layer, list(functions), (fn.__doc__ or '').strip())
+        h = Harness(name, fn, list(props), layer, list(functions), (fn.__doc__ or '').strip(), also)
         HARNESSES[name] = h
         fn.harness = h
         return fn
